@@ -85,6 +85,8 @@ class C18(Check):
             cases.append((l, {"k": "wr", "w": [(d, t), (t, d)]}))
             arch = wprog.final_bytes(o)[1]
             if arch:
+                # the same words as the STREAMING reader decodes them from the local headers: equal to the seekable reader's
+                cases.append(("stream_vs_seek %s xff" % ("x" + arch.hex()), {"k": "svs", "impl_only": True}))
                 cases.append((wprog.line([("file", b"first", Opts()), ("rawcopy", arch, 0, None), ("rawcopy", arch, 1, b"renamed/"), ("finish",)]),
                               {"k": "wr", "w": [None, (d, t), (t, d)]}))
                 cases.append((wprog.line([("file", b"added", Opts()), ("finish",)], base=arch), {"k": "wr", "w": [(d, t), (t, d), None]}))
@@ -92,6 +94,8 @@ class C18(Check):
 
     def oracle(self, line, meta, out):
         k = meta["k"]
+        if k == "svs":
+            return None if (out or "").startswith("[SAME 2]") else "timestamps (or other metadata) decoded by the streaming reader differ from the seekable reader's: " + (out or "")[:200]
         if k == "wr":
             import wprog, struct
             if out is None or "PANIC" in out or out.startswith("ABORT") or out == "TIMEOUT":
